@@ -23,6 +23,11 @@ CHECKS = {
 
 
 def main():
+    mdir = os.path.join(V, "harness", "manifest")
+    if os.path.isdir(mdir):
+        for f in sorted(os.listdir(mdir)):
+            if f.endswith(".json"):
+                CHECKS[f[:-5]] = json.load(open(os.path.join(mdir, f)))
     checks = []
     for pid in ALL:
         if pid not in CHECKS:
@@ -35,7 +40,7 @@ def main():
             "evidence_file": f"/verif/evidence/{pid}.json",
             "replay_cmd_template": "./check --replay {path}",
             "engine": "coq-model",
-            "level_claimed": {"category": "proof", "text": c["text"], "design_ref": c["design"]},
+            "level_claimed": {"category": "proof", "text": c["text"], "design_ref": c.get("design", "§7 " + pid)},
             "level_note": c["note"],
             "technique": c["technique"],
         })
